@@ -30,13 +30,6 @@ namespace DH.Ask
 
 variable {α : Type} [DecidableEq α]
 
-/-- executable `SelsOK (fun _ => True)`: each proposal that repeats an earlier one was selected
-from a candidate list whose members had all been proposed before -/
-def selsOKb : List α → List (Sel α) → Bool
-  | _, [] => true
-  | H, z :: zs =>
-    (!decide (z.x ∈ H) || z.offered.all (fun c => decide (c ∈ H))) && selsOKb (H ++ [z.x]) zs
-
 theorem selsOKb_iff : ∀ (H : List α) (Z : List (Sel α)),
     selsOKb H Z = true ↔ SelsOK (fun _ => True) H Z
   | _, [] => by simp [selsOKb, SelsOK]
